@@ -302,6 +302,26 @@ def r3_r5_resolvers(ctx, sym, ids=('R3', 'R5'), writers=True, model=None):
                             ctx.fail(R3, 'writer:%s.item-assign@%s(via %s)' % (a.attr, q, callee.name), rmod, u,
                                      "report.%s is assigned into through a helper" % a.attr,
                                      "creation order of feedback is no longer the list order")
+    # `for container in (self.feedback, self.ignored_feedback, ...): container.clear()` inside Report
+    for q, f in rmod.functions.items():
+        if not q.startswith('Report.'):
+            continue
+        for loop in ast.walk(f):
+            if not (isinstance(loop, ast.For) and isinstance(loop.target, ast.Name) and
+                    isinstance(loop.iter, (ast.Tuple, ast.List))):
+                continue
+            named = [e.attr for e in loop.iter.elts if isinstance(e, ast.Attribute) and norm(e.value) == 'self'
+                     and e.attr in ('feedback', 'ignored_feedback')]
+            for u in ast.walk(loop):
+                if named and isinstance(u, ast.Call) and isinstance(u.func, ast.Attribute) and u.func.attr in MUT and \
+                        isinstance(u.func.value, ast.Name) and u.func.value.id == loop.target.id:
+                    for attr_ in named:
+                        n += 1
+                        ctx.check(u.func.attr in ('append', 'clear'), R3,
+                                  'writer:%s.%s@%s(loop)' % (attr_, u.func.attr, q), rmod, u,
+                                  "report.%s is mutated (%s) in a loop other than by appending/clearing" % (
+                                      attr_, u.func.attr),
+                                  "creation order of feedback is no longer the list order (tie-break changes)")
     ctx.floor(R3, 'writers of report.feedback', n, 6)
 
 
